@@ -8,16 +8,17 @@ from pv.canon import T, Exc, Val, outcome, unB
 ID = "C07"
 COQ_REQUIRE = "C07.Run"
 SHARD = 50
-RULE = ("(1) /proc/stat records printed by the spec's kernel printer: 7-12 counters per line, 0-16 CPUs (ids with gaps), counters from "
+RULE = ("(1) /proc/stat records printed by the spec's kernel printer (read through cpu_times(), cpu_times(percpu=True)): 7-12 counters per line, 0-16 CPUs (ids with gaps), counters from "
         "{0,1,99,2^31,2^32,2^53+1,2^63,2^64-1,10^25,random}, CLOCK_TICKS from {100,250,1000,1,1024}, shuffled/duplicated/missing tail lines; "
-        "plus a malformed byte stream. (2) scripts of 2-7 calls of cpu_percent/cpu_times_percent (percpu or not; interval None, 0, >0 "
-        "with the kernel moving during the sleep, <0) issued by 1-3 real threads in a scripted order over successive snapshots whose "
+        "plus a malformed byte stream. (2) scripts of 2-7 calls of cpu_times/cpu_percent/cpu_times_percent (percpu or not; interval None, 0, >0 "
+        "with the kernel moving during the sleep, <0) issued by 1-3 real threads in a scripted order, 40% of them after a real re-import of psutil "
+        "over the first snapshot (import-time priming of the per-thread maps), over successive snapshots whose "
         "per-field deltas are drawn from {0, 1 tick, <1 s, >=1 s, backwards, huge}; (3) scripts of Process.cpu_percent calls on two "
         "Process objects of one pid with scripted monotonic clock, cpu_count() and all five counters of the process tuple: utime/stime and, "
         "independently, cutime/cstime/delayacct_blkio_ticks (mixed, moving alone, or standing still). Non-trivial = at least one counter "
         "or one call; distinct = distinct canonical case hash.")
 TRUSTED = ["correspondence harness props/C07.py + pv/ (fake /proc/stat, patched time.sleep, psutil._timer, cpu_count_logical, CLOCK_TICKS; "
-           "real threads run one call at a time in scripted order; float results are snapped to the model's/spec's exact rational when "
+           "importlib.reload of psutil._pslinux and psutil under pv.shim to replay the import over a fake /proc/stat; real threads run one call at a time in scripted order; float results are snapped to the model's/spec's exact rational when "
            "within the rounding tolerance)",
            "/proc/stat format transcribed from proc(5) / fs/proc/stat.c in coq/C07/Spec.v"]
 ASSUMPTIONS = ["IEEE double arithmetic and round(x, 1) are not modelled: exact rationals are compared with the returned floats within "
@@ -25,9 +26,10 @@ ASSUMPTIONS = ["IEEE double arithmetic and round(x, 1) are not modelled: exact r
                "a psutil call reads /proc/stat atomically with respect to kernel updates and to other threads' calls (calls are run one "
                "at a time; the per-thread maps are only touched by single dict get/set operations)",
                "thread idents are distinct (all threads of a script stay alive); ident reuse after a thread exits is not modelled",
+               "re-executing psutil/_pslinux.py and psutil/__init__.py with importlib.reload is taken to behave like the first import",
                "the kernel keeps the number of counters per line and the set of online CPUs constant within a script (theorem hypotheses)"]
 EXHAUSTIVE = {"thorough": "all 4 field counts 7-10 x all (function, percpu, interval form) = 2*2*4 call shapes x {first call, second call} "
-                          "on a fixed pair of snapshots (128 scripts)"}
+                          "x {maps emptied, fresh import} on a fixed triple of snapshots (256 scripts)"}
 
 FIELD_NAMES = ["user", "nice", "system", "idle", "iowait", "irq", "softirq", "steal", "guest", "guest_nice"]
 TAIL_NAMES = ["intr", "ctxt", "btime", "processes", "procs_running", "procs_blocked", "softirq"]
@@ -173,7 +175,11 @@ def gen_script(rng, flavour, big=False):
     events = []
     for _ in range(rng.randint(2, 7 if big else 6)):
         fn = {"p": "p", "tp-safe": "tp", "tp-sub": "tp"}.get(flavour) or rng.choice(["p", "tp"])
+        if rng.random() < 0.12:
+            fn = "t"           # a plain cpu_times() call in between: must not disturb any series
         iv = rng.choice(["none", "none", "none", "zero", "pos", "pos", "neg"] if rng.random() < 0.5 else ["none", "zero", "pos"])
+        if fn == "t":
+            iv = "none"
         m = mode if rng.random() < 0.9 else "same"
         snaps.append(_evolve(rng, snaps[-1], clk, g, m, nf, anchor, back))
         k1 = len(snaps) - 1
@@ -184,8 +190,11 @@ def gen_script(rng, flavour, big=False):
         events.append({"tid": rng.randrange(nthreads), "fn": fn, "percpu": rng.random() < 0.45, "iv": iv, "k1": k1, "k2": k2,
                        "zero": rng.choice([0, 0.0])})
     went_back = any(b < a for s, t in zip(snaps, snaps[1:]) for a, b in zip(s["total"] + sum(s["cpus"], []), t["total"] + sum(t["cpus"], [])))
-    cls = "script-%s%s%s%s" % (flavour, "-huge" if huge else "", "-back" if went_back else "", "-mt" if nthreads > 1 else "")
-    return {"kind": "script", "cls": cls, "clk": clk, "nf": nf, "ids": ids, "gran": g, "snaps": snaps, "events": events}
+    # imp = index of the kernel state psutil is imported over (by thread 0 = the main thread); None = maps emptied
+    imp = 0 if rng.random() < 0.4 else None
+    cls = "script-%s%s%s%s%s" % (flavour, "-huge" if huge else "", "-back" if went_back else "", "-mt" if nthreads > 1 else "",
+                                 "-imp" if imp is not None else "")
+    return {"kind": "script", "cls": cls, "clk": clk, "nf": nf, "ids": ids, "gran": g, "snaps": snaps, "events": events, "imp": imp}
 
 
 def gen_script_raw(rng):
@@ -199,9 +208,15 @@ def gen_script_raw(rng):
     evs = []
     for _ in range(rng.randint(2, 6)):
         iv = rng.choice(["none", "none", "zero", "pos", "neg"])
-        evs.append({"tid": rng.randrange(2), "fn": rng.choice(["p", "tp"]), "percpu": rng.random() < 0.5, "iv": iv,
+        fn = rng.choice(["p", "tp", "p", "tp", "t"])
+        if fn == "t":
+            iv = "none"
+        evs.append({"tid": rng.randrange(2), "fn": fn, "percpu": rng.random() < 0.5, "iv": iv,
                     "k1": rng.choice(pool).hex(), "k2": rng.choice(pool).hex(), "zero": 0})
-    return {"kind": "script_raw", "cls": "script-raw", "clk": clk, "events": evs}
+    # import over a well-formed, a 7-counter (layout then stays 7), a malformed (maps stay empty) or an empty file
+    imp = rng.choice([None, None, a, pool[2], pool[5], b""])
+    return {"kind": "script_raw", "cls": "script-raw" + ("-imp" if imp is not None else ""), "clk": clk, "events": evs,
+            "imp": None if imp is None else imp.hex()}
 
 
 def gen_proc(rng, change_ncpu=False, decoy="mixed"):
@@ -247,8 +262,9 @@ def _exhaustive_shapes():
                     for first in ("none", "pos"):
                         evs = [{"tid": 0, "fn": fn, "percpu": percpu, "iv": first, "k1": 0, "k2": 1, "zero": 0},
                                {"tid": 0, "fn": fn, "percpu": percpu, "iv": iv, "k1": 1 if first == "none" else 2, "k2": 2, "zero": 0.0}]
-                        out.append({"kind": "script", "cls": "script-shape", "clk": 100, "nf": nf, "ids": [0, 1], "gran": 1,
-                                    "snaps": [s0, s1, s2], "events": evs})
+                        for imp in (None, 0):
+                            out.append({"kind": "script", "cls": "script-shape" + ("-imp" if imp is not None else ""), "clk": 100, "nf": nf,
+                                        "ids": [0, 1], "gran": 1, "snaps": [s0, s1, s2], "events": [dict(x) for x in evs], "imp": imp})
     return out
 
 
@@ -257,7 +273,7 @@ def gen_cases(rng, tier):
     big = tier == "thorough"
     cases = []
     if tier != "search":
-        cases += _exhaustive_shapes() if tier == "thorough" else _exhaustive_shapes()[::4]
+        cases += _exhaustive_shapes() if tier == "thorough" else _exhaustive_shapes()[::7]
     cases += [gen_times(rng) for _ in range(120 * n)]
     cases += [gen_times_raw(rng) for _ in range(80 * n)]
     for flavour, k in (("p", 110), ("tp-safe", 110), ("mixed", 90), ("mixed-any", 40), ("tp-sub", 40)):
@@ -281,7 +297,7 @@ def _stat(total, cpus, tail):
 
 
 IV = {"none": "INone", "zero": "IZero", "pos": "IPos", "neg": "INeg"}
-FN = {"p": "FPercent", "tp": "FTimesPercent"}
+FN = {"t": "FTimes", "p": "FPercent", "tp": "FTimesPercent"}
 SCRIPT_TAIL = [["intr", [5, 1]], ["ctxt", [7]]]
 
 
@@ -296,11 +312,13 @@ def coq_term(case):
         lets = "".join("let s%d := %s in " % (i, _stat(s["total"], list(zip(case["ids"], s["cpus"])), SCRIPT_TAIL))
                        for i, s in enumerate(case["snaps"]))
         evs = ["(mk_ev %d %s %s %s s%d s%d)" % (e["tid"], FN[e["fn"]], G.bo(e["percpu"]), IV[e["iv"]], e["k1"], e["k2"]) for e in case["events"]]
-        return "%srun_script %s %s %s" % (lets, clk, G.nat(case["nf"]), G.lst(evs))
+        imp = "None" if case.get("imp") is None else "(Some (0, s%d))" % case["imp"]
+        return "%srun_script %s %s %s %s" % (lets, clk, G.nat(case["nf"]), imp, G.lst(evs))
     if k == "script_raw":
         evs = ["(Build_event %d %s %s %s %s %s)" % (e["tid"], FN[e["fn"]], G.bo(e["percpu"]), IV[e["iv"]],
                                                     G.by(bytes.fromhex(e["k1"])), G.by(bytes.fromhex(e["k2"]))) for e in case["events"]]
-        return "run_script_raw %s %s" % (clk, G.lst(evs))
+        imp = "None" if case.get("imp") is None else "(Some (0, %s))" % G.by(bytes.fromhex(case["imp"]))
+        return "run_script_raw %s %s %s" % (clk, imp, G.lst(evs))
     if k == "proc":
         rd = lambda r: "(mk_rd %s %d %d %d %d %d)" % (_q(r[0]), r[1], r[2], r[3], r[4], r[5])  # noqa: E731
         evs = ["(mk_pev %d %s %s %s %s)" % (e["obj"], IV[e["iv"]], G.z(e["ncpu"]), rd(e["r1"]), rd(e["r2"])) for e in case["events"]]
@@ -311,15 +329,18 @@ def coq_term(case):
 def coq_struct(case, raw):
     k = case["kind"]
     if k == "times":
-        model = [raw[1], raw[2], raw[3]]
+        model = [raw[1], raw[2]]
         spec = None
-        if raw[4] is not None:
-            spec = [Val(raw[4][0]), Val(raw[4][1]), Val(raw[5]) if raw[5] is not None else raw[3]]
+        if raw[3] is not None:
+            spec = [Val(raw[3][0]), Val(raw[3][1])]
         return {"printed": raw[0], "model": model, "spec": spec}
     if k == "times_raw":
-        return {"model": [raw[0], raw[1], raw[2]], "spec": None}
+        return {"model": [raw[0], raw[1]], "spec": None}
     if k == "script":
-        return {"printed": raw[0], "model": raw[1], "spec": raw[2], "totals": raw[3]}
+        if raw[5] is True and raw[2] is not None and raw[1] != raw[2]:
+            # hypotheses of C07_script_all_threads hold, so model = spec is a theorem (both are Qred-normal)
+            raise RuntimeError("model and spec differ on a script satisfying script_ok: %r" % (case,))
+        return {"printed": raw[0], "model": raw[1], "spec": raw[2], "totals": raw[3], "imp_printed": raw[4], "hyp_ok": raw[5]}
     if k == "script_raw":
         return {"model": raw[0], "spec": None}
     if k == "proc":
@@ -480,12 +501,7 @@ def _times_results(psutil):
             raise _BadShape("percpu result is %r" % type(l))
         return (None, [_row(nt, len(nt._fields)) for nt in l])
 
-    def conv_s(st):
-        if type(st).__name__ != "scpustats" or st._fields != ("ctx_switches", "interrupts", "soft_interrupts", "syscalls") or st.syscalls != 0:
-            raise _BadShape("scpustats %r" % (st,))
-        return [st.ctx_switches, st.interrupts, st.soft_interrupts]
-    return [_shape_outcome(psutil.cpu_times, conv_t), _shape_outcome(lambda: psutil.cpu_times(percpu=True), conv_p),
-            _shape_outcome(psutil.cpu_stats, conv_s)]
+    return [_shape_outcome(psutil.cpu_times, conv_t), _shape_outcome(lambda: psutil.cpu_times(percpu=True), conv_p)]
 
 
 def impl_run(case, coq, env):
@@ -507,7 +523,6 @@ def impl_run(case, coq, env):
                 r = res[i]
                 # (field names are checked in _row; the number of fields by the comparison with the model/spec row)
                 out.append(_snap_outcome(r, cands, rel) if isinstance(r, dict) and r.get("t") == "Val" else r)
-            out.append(res[2])
             return out
         if k in ("script", "script_raw"):
             return _run_script(case, coq, psutil, root, time)
@@ -520,7 +535,7 @@ def impl_run(case, coq, env):
 
 def _tolerance(case):
     if case["kind"] == "script":
-        m = max(max(s["total"] + sum(s["cpus"], [0])) for s in case["snaps"])
+        m = max(max(s["total"] + sum(s["cpus"], [0])) for s in case["snaps"])   # snaps[0] = import-time state included
         noise = Fraction(200 * m, 2 ** 46 * case["gran"])
     else:
         noise = Fraction(1, 10 ** 6)
@@ -528,12 +543,39 @@ def _tolerance(case):
     return lambda c: t
 
 
+def _import_over(psutil, root, content, clk):
+    """Re-execute psutil's import (the _pslinux layout probe and the priming of the four per-thread maps in
+    psutil/__init__.py) in this -- the main -- thread while /proc/stat shows `content`.  Returns the installed shim:
+    psutil.PROCFS_PATH is "/proc" again and every later read of /proc/stat goes to the fake file."""
+    import importlib
+    from pv.shim import Shim
+    _write_stat(root, content)
+    sh = Shim({"/proc/stat": os.path.join(root, "stat")})
+    real_sysconf = os.sysconf
+    os.sysconf = lambda name: clk if name == "SC_CLK_TCK" else real_sysconf(name)
+    sh.install()
+    try:
+        importlib.reload(psutil._pslinux)
+        importlib.reload(psutil)
+    except BaseException:
+        sh.uninstall()
+        raise
+    finally:
+        os.sysconf = real_sysconf
+    assert psutil.PROCFS_PATH == "/proc" and psutil._pslinux.CLOCK_TICKS == clk
+    return sh
+
+
 def _run_script(case, coq, psutil, root, time):
     k = case["kind"]
     tol = _tolerance(case)
+    rel = lambda c: Fraction(1, 2 ** 48) * max(1, abs(c))  # noqa: E731
     threads = {}
     pending = {"k2": None, "slept": 0}
     real_sleep = time.sleep
+    shim = None
+    if case.get("imp") is not None:
+        shim = _import_over(psutil, root, unB(coq["imp_printed"]) if k == "script" else bytes.fromhex(case["imp"]), case["clk"])
 
     def fake_sleep(x):
         pending["slept"] += 1
@@ -551,10 +593,16 @@ def _run_script(case, coq, psutil, root, time):
             _write_stat(root, k1)
             pending["k2"], pending["slept"] = (k2 if e["iv"] == "pos" else None), 0
             iv = {"none": None, "zero": e.get("zero", 0), "pos": 0.25, "neg": -1}[e["iv"]]
-            f = psutil.cpu_percent if e["fn"] == "p" else psutil.cpu_times_percent
+            f = {"p": psutil.cpu_percent, "tp": psutil.cpu_times_percent, "t": psutil.cpu_times}[e["fn"]]
             percpu = e["percpu"]
 
             def conv(r, fn=e["fn"], percpu=percpu):
+                if fn == "t":
+                    if percpu:
+                        if not isinstance(r, list):
+                            raise _BadShape("cpu_times(percpu=True) -> %r" % type(r))
+                        return ("TimesP", [_row(nt, len(nt._fields)) for nt in r])
+                    return ("Times", _row(r, len(r._fields)))
                 if fn == "p":
                     if percpu:
                         if not isinstance(r, list):
@@ -567,7 +615,9 @@ def _run_script(case, coq, psutil, root, time):
                     return ("Rows", [_row(nt, len(nt._fields)) for nt in r])
                 return ("Row", _row(r, len(r._fields)))
 
-            def call(f=f, iv=iv, percpu=percpu, conv=conv):
+            def call(f=f, iv=iv, percpu=percpu, conv=conv, fn=e["fn"]):
+                if fn == "t":
+                    return _shape_outcome(lambda: f(percpu=percpu), conv)
                 return _shape_outcome(lambda: f(interval=iv, percpu=percpu), conv)
             if e["tid"] == 0:
                 r = call()
@@ -576,14 +626,17 @@ def _run_script(case, coq, psutil, root, time):
                     threads[e["tid"]] = _Thread()
                 r = threads[e["tid"]].call(call)
             is_val = isinstance(r, dict) and r.get("t") == "Val"
-            if (pending["slept"] != (1 if e["iv"] == "pos" else 0)) if is_val else (pending["slept"] > (1 if e["iv"] == "pos" else 0)):
+            want_sleep = 1 if (e["iv"] == "pos" and e["fn"] != "t") else 0
+            if (pending["slept"] != want_sleep) if is_val else (pending["slept"] > want_sleep):
                 r = T("SleepCalls", pending["slept"])     # time.sleep(interval) exactly once in the blocking form, never otherwise
             elif is_val:
                 cands = [coq["model"][idx]] + ([coq["spec"][idx]] if coq.get("spec") else [])
-                r = _snap_outcome(r, cands, tol)
+                r = _snap_outcome(r, cands, rel if e["fn"] == "t" else tol)
             out.append(r)
     finally:
         time.sleep = real_sleep
+        if shim is not None:
+            shim.uninstall()
         for t in threads.values():
             t.stop()
     return out
@@ -650,18 +703,22 @@ def _run_proc(case, coq, psutil, fp, time):
 
 
 MANIFEST = {
-    "text": "Theorems (Coq): for every /proc/stat the kernel can print (any number of CPUs, >= 7 counters per line, any digit strings) the "
-            "model of cpu_times()/cpu_times(percpu=True) returns every named counter divided by CLOCK_TICKS, per CPU in kernel order; "
-            "for every pair of samples cpu_percent's value equals 100*busy/total over clipped deltas (busy = user+nice+system+irq+softirq+steal, "
-            "guest not double counted, idle/iowait not busy), lies in [0,100], and a counter that went backwards contributes zero; "
-            "cpu_times_percent's shares lie in [0,100] always and the non-guest shares add up to exactly 100 whenever at least one CPU-second "
-            "elapsed (refuted with a witness below one second: known finding); calls by other threads (any number, blocking or "
-            "not) neither touch a thread's samples nor change the result of its next call (frame theorem over the four per-thread maps); Process.cpu_percent "
-            "is 100*cpu/wall since the object's previous call for every sequence of calls on any number of objects and any cpu_count() answers "
-            "(history-based specification; the skew under a changing CPU count was repaired by /repo commit 8e92b46), 0 on the first call, "
-            "ValueError for negative intervals. The model is tied to the code by running the real psutil over fake /proc/stat files, a scripted clock and "
-            "real threads on generated cases.",
+    "text": "Theorems (Coq, 24, all closed under the global context): (parse) for every /proc/stat the kernel can print (any number of CPUs, >= 7 "
+            "decimal counters per line) the model of cpu_times()/cpu_times(percpu=True) returns every named counter / CLOCK_TICKS per CPU in kernel "
+            "order; (arithmetic) cpu_percent between two samples = 100*busy/total over clipped deltas (busy = user+nice+system+irq+softirq+steal, "
+            "guest not double counted, idle/iowait not busy), in [0,100], a counter that went backwards contributes zero; cpu_times_percent values "
+            "are in [0,100] always and the non-guest shares add up to exactly 100 once one CPU-second elapsed (refuted with a witness below one "
+            "second: known finding); (script theorem C07_script_all_threads) starting from the state the import leaves (the importing thread primed "
+            "with the import-time sample in all four series), for every sequence of cpu_times / cpu_percent / cpu_times_percent calls by any number "
+            "of threads (percpu or not, interval None / 0 / > 0 with the kernel moving during the sleep / < 0 -> ValueError) the results are those "
+            "of a history-based specification: each thread against its own previous sample of the same series, the importing thread's first call "
+            "against the import-time sample, a thread without a sample against 'now' (0.0) -- under decidable hypotheses (constant field count "
+            "and CPU set; for cpu_times_percent no pair with 0 < elapsed < 1 s = the known finding); frame theorems (other threads' calls change "
+            "nothing for a thread); Process.cpu_percent = 100*delta(user+system)/CLK/delta(wall) since the object's previous call for every "
+            "sequence of calls on any objects with any cpu_count() answers and arbitrary children_user/children_system/iowait (which do not count), "
+            "0 on the first call, ValueError for negative intervals. The model is tied to the code by running the real psutil over fake /proc/stat "
+            "files (including a real re-import of psutil over a redirected /proc/stat), a scripted clock and real threads on generated cases.",
     "note": "Trusted: Coq kernel + vm_compute; hand-written model coq/C07/Model.v (tied by the correspondence run only); /proc/stat format in "
-            "coq/C07/Spec.v; harness; CPython floats and round() (compared within one rounding step). Proof covers the model, sampling covers "
-            "model-vs-code.",
+            "coq/C07/Spec.v; harness (fake files, importlib.reload under the path shim, patches of time.sleep / psutil._timer / cpu_count_logical / "
+            "CLOCK_TICKS, snapping tolerance); CPython floats and round() (compared within one rounding step). cpu_stats() is left to C19.",
 }
